@@ -120,6 +120,34 @@ func runC17(c *runCtx) {
 		c.violation(-1, "C17/introspection", "queries do not work without a user: "+trunc(raw, 300), nil)
 		return
 	}
+	// the payload type of each mutation: its operation fields are asked for as well
+	opFields := map[string][]string{}
+	func() {
+		defer func() { recover() }()
+		res, _ := gqlPost(anon, `{ __schema { mutationType { fields { name type { kind name ofType { kind name } } } } } }`)
+		for _, fx := range res["data"].(map[string]any)["__schema"].(map[string]any)["mutationType"].(map[string]any)["fields"].([]any) {
+			fm := fx.(map[string]any)
+			tm := fm["type"].(map[string]any)
+			tn, _ := tm["name"].(string)
+			if tn == "" {
+				tn, _ = tm["ofType"].(map[string]any)["name"].(string)
+			}
+			r2, _ := gqlPost(anon, fmt.Sprintf(`{ __type(name: %q) { fields { name } } }`, tn))
+			for _, pf := range r2["data"].(map[string]any)["__type"].(map[string]any)["fields"].([]any) {
+				n, _ := pf.(map[string]any)["name"].(string)
+				if strings.HasSuffix(strings.ToLower(n), "operation") {
+					opFields[fm["name"].(string)] = append(opFields[fm["name"].(string)], n)
+				}
+			}
+		}
+	}()
+	// the operations each mutation records, by Go type
+	wantOps := map[string][]string{
+		"newBug": {"*bug.CreateOperation"}, "addComment": {"*bug.AddCommentOperation"},
+		"addCommentAndClose": {"*bug.AddCommentOperation", "*bug.SetStatusOperation"}, "addCommentAndReopen": {"*bug.AddCommentOperation", "*bug.SetStatusOperation"},
+		"editComment": {"*bug.EditCommentOperation"}, "changeLabels": {"*bug.LabelChangeOperation"},
+		"openBug": {"*bug.SetStatusOperation"}, "closeBug": {"*bug.SetStatusOperation"}, "setTitle": {"*bug.SetTitleOperation"},
+	}
 	inputFields := func(typeName string) []map[string]any {
 		res, _ := gqlPost(anon, fmt.Sprintf(`{ __type(name: %q) { inputFields { name type { kind name ofType { kind name ofType { kind name } } } } } }`, typeName))
 		var out []map[string]any
@@ -218,7 +246,11 @@ func runC17(c *runCtx) {
 						}
 						parts = append(parts, name+": "+val)
 					}
-					q := fmt.Sprintf("mutation { %s(input: {%s}) { clientMutationId bug { id title status labels { name } comments(first: 500) { totalCount nodes { message } } } } }", f.Name, strings.Join(parts, ", "))
+					opSel := ""
+					for _, of := range opFields[f.Name] {
+						opSel += " " + of + " { id }"
+					}
+					q := fmt.Sprintf("mutation { %s(input: {%s}) { clientMutationId%s bug { id title status labels { name } comments(first: 500) { totalCount nodes { message } } } } }", f.Name, strings.Join(parts, ", "), opSel)
 					before := snapshot()
 					opsBefore := opCount()
 					h := anon
@@ -279,11 +311,13 @@ func runC17(c *runCtx) {
 					} else if valid && !hasErr {
 						// the change is recorded: every new operation is authored by the request's user
 						newOps := 0
+						var kinds []string
 						for id, n := range opCount() {
 							x, _ := rc.Bugs().Resolve(id)
 							ops := x.Snapshot().Operations
 							for _, o := range ops[opsBefore[id]:n] {
 								newOps++
+								kinds = append(kinds, fmt.Sprintf("%T", o))
 								if o.Author().Id() != web.Id() {
 									c.violation(c.nCases, "C17/wrong-author", fmt.Sprintf("mutation %s recorded a %T not authored by the request's user", f.Name, o), nil)
 								}
@@ -291,6 +325,13 @@ func runC17(c *runCtx) {
 						}
 						if newOps == 0 {
 							c.violation(c.nCases, "C17/no-change-with-user", fmt.Sprintf("mutation %s reported success but recorded no operation", f.Name), nil)
+						}
+						// exactly the requested change: the operations of this mutation, no more, no fewer
+						if want, ok := wantOps[f.Name]; ok && newOps > 0 {
+							sort.Strings(kinds)
+							if fmt.Sprint(kinds) != fmt.Sprint(want) {
+								c.violation(c.nCases, "C17/change-not-reflected", fmt.Sprintf("mutation %s with a user recorded %v, the request asks for %v (%s)", f.Name, kinds, want, trunc(q, 160)), nil)
+							}
 						}
 						if !changed {
 							c.violation(c.nCases, "C17/no-change-with-user", fmt.Sprintf("mutation %s reported success but nothing changed", f.Name), nil)
